@@ -43,8 +43,18 @@
   error code AND position for the rejection shapes a user meets: `err_too_short`, `err_scheme`, `err_empty_host`,
   `err_bracket_open`, `err_bracket_junk` (at the offending byte or the end of input), `err_port_char` (at the
   non-digit; hosts behind '@' and bracketed hosts), `err_port_big` (at the byte behind the digits).
-  NOT proved: code and position of the remaining BadChar rejections (a second '@', '[' / ']' in a user, a password
-  without '@') and of ';' inside the headers.
+  EVERY rejection (`Sipsp.Proofs.UriErrors`): `err_first_char`, `err_user_bracket`, `err_pass_char`, `err_pass_no_at`,
+  `err_pass_end`, `err_host_at`, `err_second_at`, `err_committed_at`, `err_headers_semi` — the remaining rejection
+  shapes with code and position; `total`: every input ≤ 65,535 bytes is accepted (then a text of the grammar), too
+  short, without a known scheme (always reported at position 4), or rejected behind a scheme — at the end of the input
+  with the whole text described, or at the byte at the reported position with the text in front of it described;
+  `reject_inside`: a reported position inside the input is 4 (scheme) or points at a byte of an explicit finite set per
+  error code (BadChar: `: ] [ ; ? @ &`; host: `: ; ? & @ [` or junk behind `]`; port: a non-digit) — never at an
+  innocent byte; `reject_end`; `scheme_case_stable`. Positions that are NOT at the offending byte (all pinned as tests):
+  a bad scheme is always reported at 4; `token:text` without '@' with a non-digit in the text is reported at the END
+  (`sip:h:12x` → 9) or at a following ';' / '?'; a ';' inside the headers without user-info is reported at the END.
+  NOT proved: the converse of the rejection shapes as one statement (each alternative but the last is the hypothesis
+  of an `err_*` theorem).
   Observed (all pinned as tests in UriComplete): `sip:h:12x` reports the port error at the END of the input (without
   '@' the non-digit starts a password); `sip:a&b` is accepted with host `a&b` but `sip:u@a&b` is rejected;
   `sip:u@a]b[` is accepted; `sip:u:1;x@h` is rejected while `sip:[a]:1;x@h` is accepted; for tel: URIs containing
@@ -56,6 +66,7 @@
 -/
 import Sipsp.Proofs.UriSpec
 import Sipsp.Proofs.UriComplete
+import Sipsp.Proofs.UriErrors
 
 namespace Sipsp.C14
 open Sipsp
@@ -320,5 +331,79 @@ theorem err_port_char : type_of% @Sipsp.parseURI_err_port_char := @Sipsp.parseUR
 /-- **EXPORT C14 — port above 65535** (any host of the grammar; then ':' and digits up to `p` whose value exceeds
     65535, closed by `;` / `?` or the end of the input): `ErrURIPort` at `p` (the byte behind the digits) -/
 theorem err_port_big : type_of% @Sipsp.parseURI_err_port_big := @Sipsp.parseURI_err_port_big
+
+/-! ### every rejection: code, position, totality (proved in `Sipsp.Proofs.UriErrors`) -/
+
+/-- **EXPORT C14 — `:` or `]` right behind the scheme** (where neither a port nor a password can start):
+    `ErrURIBadChar` at that byte -/
+theorem err_first_char : type_of% @Sipsp.parseURI_err_first_char := @Sipsp.parseURI_err_first_char
+
+/-- **EXPORT C14 — `[` or `]` inside the first token** behind the scheme (a user, or a host name without
+    user-info): `ErrURIBadChar` at that byte -/
+theorem err_user_bracket : type_of% @Sipsp.parseURI_err_user_bracket := @Sipsp.parseURI_err_user_bracket
+
+/-- **EXPORT C14 — `[`, `]` or a second `:` in a password** (`token:` and bytes without `@ : ; ? [ ]` up to `p`):
+    `ErrURIBadChar` at that byte -/
+theorem err_pass_char : type_of% @Sipsp.parseURI_err_pass_char := @Sipsp.parseURI_err_pass_char
+
+/-- **EXPORT C14 — a password that is not followed by '@'**: `token:text` where `text` (no `@ : ; ? [ ]`) holds a
+    non-digit, then `;` or `?`: `ErrURIBadChar` at the `;` / `?` -/
+theorem err_pass_no_at : type_of% @Sipsp.parseURI_err_pass_no_at := @Sipsp.parseURI_err_pass_no_at
+
+/-- **EXPORT C14 — a password that is not followed by anything**: `token:text` up to the end of the input where
+    `text` (no `@ : ; ? [ ]`) holds a non-digit: `ErrURIPort`, reported at the END of the input and not at the
+    non-digit (`sip:h:12x` → 9) -/
+theorem err_pass_end : type_of% @Sipsp.parseURI_err_pass_end := @Sipsp.parseURI_err_pass_end
+
+/-- **EXPORT C14 — a second '@' (or an `&`) in the host name** behind the '@' of a user-info: `ErrURIBadChar` at
+    that byte -/
+theorem err_host_at : type_of% @Sipsp.parseURI_err_host_at := @Sipsp.parseURI_err_host_at
+
+/-- **EXPORT C14 — a second '@' behind `user-info@host[:port]`, or a `;` in its headers**: with the text between
+    the host (and port ≤ 65535) and `p` being `;` parameters (no `?`, no `@`) and / or `?` headers (no `;`, no `@`),
+    an '@' at `p`, or a `;` at `p` when `p` lies in the headers, is `ErrURIBadChar` at `p` -/
+theorem err_second_at : type_of% @Sipsp.parseURI_err_second_at := @Sipsp.parseURI_err_second_at
+
+/-- **EXPORT C14 — an '@' behind `token:digits;` / `token:digits?`** (value ≤ 65535): the `;` / `?` has committed the
+    token as host and the digits as port, so an '@' further on (or a `;` in the headers) is `ErrURIBadChar` at that
+    byte (`sip:u:1;x@h` → 9) -/
+theorem err_committed_at : type_of% @Sipsp.parseURI_err_committed_at := @Sipsp.parseURI_err_committed_at
+
+/-- **EXPORT C14 — `;` inside the headers of a URI without user-info** (host = first token or `[…]`, no port, optional
+    `;` parameters without `:`, then `?` at `q`): when neither '@' nor `:` follows, a `;` anywhere in the headers
+    gives `ErrURIHeaders`, reported at the END of the input (`sip:h?a;b` → 9) -/
+theorem err_headers_semi : type_of% @Sipsp.parseURI_err_headers_semi := @Sipsp.parseURI_err_headers_semi
+
+/-- **EXPORT C14 — totality of the description of `ParseURI`**: for every input of at most 65,535 bytes
+    at least one of four things happens (the four are mutually exclusive by the error code / position):
+    * it is ACCEPTED, consumed to the end, and is a text of the grammar (`UcURI` or `UcTelURI`);
+    * it has fewer than five bytes: `ErrURITooShort` at the end;
+    * it has no known scheme: `ErrURIScheme` at position 4 (always 4: the position is not that of an offending
+      byte unless the scheme is `sips` without its `:`);
+    * behind a scheme of `k` bytes it is REJECTED, either at its END (position = length) with the whole text
+      described by `UeEndShape`, or at the byte `c` at the reported position `p ≥ k`, which the automaton rejects
+      in the state it has reached: `UeShape` gives the text in front of `p`, the byte and the code. -/
+theorem total : type_of% @Sipsp.parseURI_total := @Sipsp.parseURI_total
+
+/-- **EXPORT C14 — a position inside the input points at an offending byte**: when `ParseURI` rejects an input
+    (≤ 65,535 bytes) at a position `p < len`, then either the code is `ErrURIScheme` and `p = 4`, or the byte at `p`
+    is one of the bytes the automaton rejects with that code (`UeByte`: a finite set for `ErrURIBadChar`; for
+    `ErrURIHost` a finite set or any byte but `: ; ?` right behind `]`; a non-digit for `ErrURIPort`).  The codes
+    `ErrURITooShort` and `ErrURIHeaders` are only ever reported at the end of the input, and `ErrURIBad` /
+    `ErrURIBug` never. -/
+theorem reject_inside : type_of% @Sipsp.parseURI_reject_inside := @Sipsp.parseURI_reject_inside
+
+/-- **EXPORT C14 — rejections at the end of the input**: when the reported position is the length of the input, the
+    code is `ErrURITooShort`, `ErrURIHost`, `ErrURIPort` or `ErrURIHeaders`, and the whole input has one of the
+    shapes of `UeEndShape`.  These are the only rejections whose position is not that of an offending byte (the
+    scheme error aside); in particular `ErrURIPort` at the end covers `token:text` without '@' where `text` holds a
+    non-digit somewhere (`sip:h:12x`), and `ErrURIHeaders` is reported at the end although the offending `;` lies
+    inside. -/
+theorem reject_end : type_of% @Sipsp.parseURI_reject_end := @Sipsp.parseURI_reject_end
+
+/-- **EXPORT C14 — the letter case of the scheme does not matter**: two inputs that differ only in the case of the
+    scheme letters (`sip:` / `SIP:` / `sIpS:` …) get the same verdict — the same error code, the same position, the
+    same components, for every input, accepted or rejected -/
+theorem scheme_case_stable : type_of% @Sipsp.parseURI_case_stable := @Sipsp.parseURI_case_stable
 
 end Sipsp.C14
